@@ -272,7 +272,22 @@ def run_op(pool, op):
             return mm, owned
         probe = make_probe(train, ["U", "D"] + (["V"] if case["jfa"] else []), None)
     elif name == "fa_fit_array":
-        m = sut.make_fa(case, em_iterations=1)
+        # the caller's TRAINED UBM is handed to the machine; with the flag the (documented as ignored when a UBM is
+        # given) ubm_kwargs are passed as well, as configuration-driven code does
+        from bob.learn.em import JFAMachine
+
+        kw = dict(em_iterations=1)
+        if op["flag"]:
+            kw["ubm_kwargs"] = dict(n_gaussians=int(case["ubm"]["C"]), max_fitting_steps=2, convergence_threshold=None,
+                                    update_variances=True, update_weights=True)
+        rU = np.asarray(case["U"]).shape[1]
+        if case["jfa"]:
+            m = JFAMachine(r_U=rU, r_V=np.asarray(case["V"]).shape[1], ubm=pool.ubm, **kw)
+            m.V = np.array(case["V"], dtype=float)
+        else:
+            m = ISVMachine(r_U=rU, ubm=pool.ubm, **kw)
+        m.U = np.array(case["U"], dtype=float)
+        m.D = np.array(case["D"], dtype=float)
         m.fit_using_array(data, pool.y)
         res = {"U": m.U, "D": m.D}
 
